@@ -41,6 +41,44 @@ Proof.
   unfold Service.on_message, on_in_request, on_out_request; rewrite Hk; reflexivity.
 Qed.
 
+(* ---------- C09 (c): a message the swap's current state does not accept changes nothing ---------- *)
+Lemma send_event_unaccepted t m ev ctx w :
+  String.eqb ev Ev_Done = false -> next_state t (m_cur m) ev = None ->
+  send_event tc decode t m ev ctx w = ((m, mkResult false ErrRejected), w, []).
+Proof. intros Hd Hn. unfold send_event. rewrite Hd, Hn. reflexivity. Qed.
+
+Lemma put_same {A} k (v : A) l : assoc_str k l = Some v -> put k v l = l.
+Proof.
+  induction l as [|[k' v'] l IH]; cbn [assoc_str put]; [discriminate|].
+  destruct (String.eqb k k') eqn:E.
+  - intros H. inversion H; subst. apply String.eqb_eq in E. subst. reflexivity.
+  - intros H. rewrite IH; auto.
+Qed.
+
+Lemma event_of_msg_not_done m : String.eqb (event_of_msg m) Ev_Done = false.
+Proof. destruct m; reflexivity. Qed.
+
+Theorem unaccepted_message_changes_nothing n sender m sw mach :
+  is_request_msg m = false ->
+  assoc_str (msg_id m) (n_active n) = Some mach ->
+  next_state (table_of t_os t_or t_is t_ir mach) (m_cur mach) (event_of_msg m) = None ->
+  exists err, on_message n sender m sw = (n, [], err) /\ err <> SOk.
+Proof.
+  intros Hreq Ha Hn.
+  destruct (String.eqb (d_peer (m_data mach)) sender) eqn:Ep.
+  2:{ apply foreign_message_changes_nothing; auto. right. exists mach. split; auto.
+      intros Hx. subst. rewrite String.eqb_refl in Ep. discriminate. }
+  assert (G : on_message n sender m sw =
+              (let id := msg_id m in
+               let '(n2, es, o) := deliver tc decode t_os t_or t_is t_ir terminal n id mach
+                                     (InEvent (event_of_msg m) (Some m)) (sw_inner sw) in
+               (n2, es, match r_err (o_result o) with ErrNone => SOk | e => SErrMachine e end))).
+  { unfold Service.on_message. destruct m; try discriminate; cbn [msg_id] in *; rewrite Ha, Ep; reflexivity. }
+  rewrite G. cbv zeta. unfold deliver, run_step, step.
+  unfold bind. rewrite (send_event_unaccepted _ _ _ _ _ (event_of_msg_not_done m) Hn).
+  cbn. rewrite (put_same _ _ _ Ha). destruct n. eexists. split; [reflexivity|discriminate].
+Qed.
+
 End Svc.
 
 (* ---------- C10: the lock ---------- *)
